@@ -34,7 +34,9 @@ RULE = (
     "only additions). Histories: a second conversion from the same model object into another "
     "directory (any label), and - for unlabelled exports - curate again, reload and convert again "
     "into the same directory with force=True; every output is verified with the same predicates. "
-    "Non-trivial: curated, or a label, or (n,1) storage, or no raw data.")
+    "Non-trivial: curated, or a label, or (n,1) storage, or no raw data."
+    ' Later additions: output folder names with glob characters, symlinked source files, subset f'
+    'iles extracted earlier in a source without raw data.')
 ASSUMPTIONS = ['pc-feature stores that hold all spikes (a row-subset store has no depth '
                'definition in the statement)', 'mtscomp as codec']
 FAMILIES = ('spikes.', 'clusters.', 'templates.', 'channels.')
